@@ -7,5 +7,4 @@ CONSTANTS Fmt = "idf"
           AdfWidth = 2
 INVARIANT RoundTrip
 INVARIANT TablesBack
-INVARIANT PrefixTotal
 CHECK_DEADLOCK FALSE
